@@ -107,9 +107,19 @@ def match_known(prop, viol, known):
 
 
 def _m(pat, s):
-    if pat.endswith('*'):
-        return s.startswith(pat[:-1])
-    return pat == s
+    """glob with '*' only (labels contain brackets, so fnmatch is not used)"""
+    parts = pat.split('*')
+    if len(parts) == 1:
+        return pat == s
+    if not s.startswith(parts[0]):
+        return False
+    pos = len(parts[0])
+    for mid in parts[1:-1]:
+        i = s.find(mid, pos)
+        if i < 0:
+            return False
+        pos = i + len(mid)
+    return s.endswith(parts[-1]) and len(s) - len(parts[-1]) >= pos
 
 
 # ------------------------------------------------------------------ main entry
